@@ -4,6 +4,7 @@ Command interpreter for the line protocol (see `Main.lean`).
 import P3R.Model.Runner
 import P3R.Model.Roles
 import P3R.Model.FusionCheck
+import P3R.Model.LowerCheck
 import P3R.Model.Field
 
 namespace P3R.Driver
@@ -143,6 +144,11 @@ def step (st : St) (line : String) : St × List String :=
         match compile st.b with
         | .ok c => ({ st with c := some c }, "build ok" :: circuitLines c)
         | .error _ => ({ st with c := none }, ["build err"])
+      | "lcheck", [] =>
+        -- certificate check of the lowering of this program (see Model/LowerCheck.lean)
+        match lower st.b with
+        | .error _ => (st, ["lcheck n/a"])
+        | .ok l => (st, [if lowerCheck st.b l && l.ops.toList.all opWF then "lcheck ok" else "lcheck FAIL"])
       | "fcheck", [] =>
         -- certificate check of the fusion pass on this program (see Model/FusionCheck.lean)
         match lower st.b with
